@@ -264,6 +264,49 @@ func main() {
 			walk(fd.Body, "")
 			e.Strs("fmAppendReturns", sorted(rets), "FracManager.Append: the ways out of the retry loop")
 		}
+		if f, err := r.Load("frac/file_writer.go"); err != nil {
+			e.Missing("syncLoopErrScope", err)
+		} else if fd := f.Func("FileWriter", "syncLoop"); fd == nil {
+			e.Missing("syncLoopErrScope", "FileWriter.syncLoop not found")
+		} else {
+			// where the error that is sent to the waiting writers is declared / assigned, relative to the batch loop
+			var loop *ast.RangeStmt
+			ast.Inspect(fd.Body, func(x ast.Node) bool {
+				if rs, ok := x.(*ast.RangeStmt); ok && loop == nil && strings.HasSuffix(f.Render(rs.X), "notify") {
+					loop = rs
+				}
+				return true
+			})
+			if loop == nil {
+				e.Missing("syncLoopErrScope", "syncLoop: no `for range fs.notify` loop")
+			} else {
+				var evs []ev
+				sent := ""
+				ast.Inspect(fd.Body, func(x ast.Node) bool {
+					where := "before-loop"
+					if x != nil && x.Pos() >= loop.Body.Pos() && x.End() <= loop.Body.End() {
+						where = "in-loop"
+					}
+					switch st := x.(type) {
+					case *ast.AssignStmt:
+						for _, l := range st.Lhs {
+							if f.Render(l) == "err" {
+								evs = append(evs, ev{st.Pos(), where + ": " + f.Render(st)})
+							}
+						}
+					case *ast.DeclStmt:
+						if strings.Contains(f.Render(st), "err ") {
+							evs = append(evs, ev{st.Pos(), where + ": " + f.Render(st)})
+						}
+					case *ast.SendStmt:
+						sent = f.Render(st.Value)
+					}
+					return true
+				})
+				evs = append(evs, ev{fd.End(), "sent: " + sent})
+				e.Strs("syncLoopErrScope", sorted(evs), "FileWriter.syncLoop: every declaration/assignment of the error sent to the batch's writers, and what is sent")
+			}
+		}
 		if f, err := r.Load("fracmanager/fetcher.go"); err != nil {
 			e.Missing("fetchArrangeGuards", err)
 		} else if fd := f.Func("Fetcher", "FetchDocs"); fd == nil {
@@ -495,5 +538,5 @@ func main() {
 			e.Bool("trySetClearsUnlessSealing", total == 2 && inside == 2 && sealingDef,
 				"trySetSuicided: `sealing := f.isSealingState()` and the only field writes are sealed=nil, active=nil under `if !sealing`")
 		}
-	}, "frac/active_indexer.go", "frac/active_index.go", "frac/active.go", "frac/active_token_list.go", "frac/inverser.go", "frac/sealed.go", "frac/sealed_index.go", "fracmanager/fracmanager.go", "fracmanager/fetcher.go", "storeapi/client.go", "proxy/bulk/indexer.go", "fracmanager/proxy_frac.go")
+	}, "frac/active_indexer.go", "frac/active_index.go", "frac/active.go", "frac/active_token_list.go", "frac/inverser.go", "frac/file_writer.go", "frac/sealed.go", "frac/sealed_index.go", "fracmanager/fracmanager.go", "fracmanager/fetcher.go", "storeapi/client.go", "proxy/bulk/indexer.go", "fracmanager/proxy_frac.go")
 }
